@@ -14,7 +14,13 @@ S-expression whose strings are the register's.  Payee overrides are part of the 
 `; Payee: X` on a posting (on its line or the next), directly under the transaction header (inherited
 by every posting), or both; per posting, the payee a reader recovers (xml: the posting's <payee> if
 present, else the transaction's; csv: the payee column; emacs: the transaction's payee field) must be
-the register's %(payee); likewise the inherited value of a `Ref:` tag in the xml metadata."""
+the register's %(payee); likewise the inherited value of a `Ref:` tag in the xml metadata.
+Dates of every written form are part of it as well: `DATE=AUX` in the header, `; [DATE]`, `; [=AUX]`,
+`; [DATE=AUX]` on a posting (or on a transaction note, replacing the header's), from 1901 to 9999,
+each journal reported with or without --aux-date; per posting, the date a reader recovers (xml:
+the posting's <date> if present else the transaction's, and <aux-date> likewise, compared with the
+register run without and with --aux-date; csv: the date column; emacs: the transaction's time value)
+must be the register's %(date) for the same query."""
 import csv, io, os, re
 import xml.etree.ElementTree as ET
 from fractions import Fraction as F
@@ -24,10 +30,10 @@ META = dict(
     id='C18',
     level='proof',
     technique='Coq proof (decode . encode = id for the emacs, csv and xml escaping functions against reader specifications; token/parenthesis structure of the emacs writer; element structure of the xml writer) + differential correspondence of the extracted writers against ledger + python csv/xml.etree/S-expression oracles',
-    level_text='Theorems in coq/Properties/Properties_C18.v state for ALL byte strings that the Emacs-Lisp reader recovers every string escape_string writes, that the whole emacs output lexes to the expected balanced token list and reads back as the tree (file line (hi lo 0) code payee (line account amount state [cost] [note])...); that XML character-data decoding inverts boost\'s entity encoding, the encoded text has no raw < and no & outside the six references, and a tag scanner finds in what the modelled property-tree writer prints exactly the elements of the tree, properly nested (for the transactions, accounts and commodities sections ledger builds, whatever the journal texts are); that an RFC 4180 reader recovers every row written with quoted_rfc; that the DEFAULT csv format (regenerated from report.h on every run) is recovered by the backslash-escape reader for ALL field contents (quoted() escapes both the double quote and the backslash), and by the RFC 4180 reader when no field holds a double quote or a backslash (the RFC reader is refuted by witnesses for each of the two characters - a statement about that reader; the property asks for one conventional reader). Payee overrides (`; Payee: X` tags) are modelled as the code resolves them (post_t::payee(): the stored payee, else the inherited tag, else the header); how the payee is stored is a fact regenerated from textual.cc on every run (Gen/PayeeRule.v: fixed when the posting line is read, or also updated by a Payee tag on a later note line), which selects the model rule and the statement of xml_payee_faithful: with the later-line update the payee an xml reader recovers (posting <payee> else transaction <payee>) is proved equal to the register payee for every posting whose later Payee tags carry a value; with the payee fixed at the posting line that holds only without later-line tags or without a stored payee and is refuted by a witness (finding F116). The csv payee cell is proved to be post_t::payee(); the emacs payee, one per transaction, equals it only when no tag is present (refuted by witness, finding F115). The model is tied to the code by comparing, byte for byte, ledger\'s csv (default and generated formats), emacs and xml (transactions, account tree, commodities) output with the extracted model on generated journals, and its reader specifications are cross-checked against python csv, expat and an S-expression reader on ledger\'s real output.',
+    level_text='Theorems in coq/Properties/Properties_C18.v state for ALL byte strings that the Emacs-Lisp reader recovers every string escape_string writes, that the whole emacs output lexes to the expected balanced token list and reads back as the tree (file line (hi lo 0) code payee (line account amount state [cost] [note])...); that XML character-data decoding inverts boost\'s entity encoding, the encoded text has no raw < and no & outside the six references, and a tag scanner finds in what the modelled property-tree writer prints exactly the elements of the tree, properly nested (for the transactions, accounts and commodities sections ledger builds, whatever the journal texts are); that an RFC 4180 reader recovers every row written with quoted_rfc; that the DEFAULT csv format (regenerated from report.h on every run) is recovered by the backslash-escape reader for ALL field contents (quoted() escapes both the double quote and the backslash), and by the RFC 4180 reader when no field holds a double quote or a backslash (the RFC reader is refuted by witnesses for each of the two characters - a statement about that reader; the property asks for one conventional reader). Payee overrides (`; Payee: X` tags) are modelled as the code resolves them (post_t::payee(): the stored payee, else the inherited tag, else the header); how the payee is stored is a fact regenerated from textual.cc on every run (Gen/PayeeRule.v: fixed when the posting line is read, or also updated by a Payee tag on a later note line), which selects the model rule and the statement of xml_payee_faithful: with the later-line update the payee an xml reader recovers (posting <payee> else transaction <payee>) is proved equal to the register payee for every posting whose later Payee tags carry a value; with the payee fixed at the posting line that holds only without later-line tags or without a stored payee and is refuted by a witness (finding F116). Dates are modelled as post_t::date() resolves them (the own date or auxiliary date of the posting, else that of the transaction, under either --aux-date setting): the xml tree is proved to carry _date under <date> and _date_aux under <aux-date> for transactions and postings (xml_date_elements), the dates a reader recovers from them are proved to be those of the register without and with --aux-date (xml_dates_faithful), the csv date cell is post_t::date(), and the emacs time value, one per transaction, equals it only for postings without dates of their own (refuted by witness, finding F150). The csv payee cell is proved to be post_t::payee(); the emacs payee, one per transaction, equals it only when no tag is present (refuted by witness, finding F115). The model is tied to the code by comparing, byte for byte, ledger\'s csv (default and generated formats), emacs and xml (transactions, account tree, commodities) output with the extracted model on generated journals, and its reader specifications are cross-checked against python csv, expat and an S-expression reader on ledger\'s real output.',
     level_note='Trusted: Coq kernel; extraction + OCaml driver and this harness for the correspondence. boost::property_tree\'s XML writer and entity encoder are modelled (Model/Escape.v write_el, xml_encode) and validated by the correspondence, not verified. Amount texts (quantity, commodity, annotated amount) are taken from the register report, as the property text does. The running <total>, <account-amount>, <account-total> subtrees and the id/ref addresses of the xml output are not compared.',
     design_ref='DESIGN.md section 7 C18, section 9 F10 (repaired by /repo 3212d62)',
-    assumptions=['free-text fields survive journal parsing unchanged (see EXCLUSIONS in harness/props/c18.py): no tab/newline inside a field, no double space, a payee does not start with `(` unless a code precedes it nor with `*`/`!` on an uncleared transaction, a code has no `)`, an account name is not wrapped in ()/[]/<>, has no empty `:` component and does not start with `;` `*` `!`, a free-text note has no token starting or ending with `:` and no `[` before a digit or `=` (date override); metadata is generated in dedicated note lines (`Key: value`, `:tag:tag:`, `Payee: X`) with string values only (no `Key:: expr`), and no bare `:Payee:` tag',
+    assumptions=['the reports run without --effective/--date overrides other than --aux-date; dates lie between 1901/01/01 and 9999/12/31 (boost gregorian) in %Y/%m/%d form', 'free-text fields survive journal parsing unchanged (see EXCLUSIONS in harness/props/c18.py): no tab/newline inside a field, no double space, a payee does not start with `(` unless a code precedes it nor with `*`/`!` on an uncleared transaction, a code has no `)`, an account name is not wrapped in ()/[]/<>, has no empty `:` component and does not start with `;` `*` `!`, a free-text note has no token starting or ending with `:` and no `[` before a digit or `=` (date override); metadata is generated in dedicated note lines (`Key: value`, `:tag:tag:`, `Payee: X`) with string values only (no `Key:: expr`), and no bare `:Payee:` tag',
                  'quoted commodity symbols contain no double quote and no backslash (commodity scanner escapes)',
                  'control characters (outside the property\'s quantifier) are not generated: boost writes them raw, which is not well-formed XML 1.0'],
 )
@@ -181,7 +187,35 @@ def gen_meta_line(rng, kind):
     return lead + pre + ':' + ':'.join(names) + ':', [(n, None) for n in names]
 
 
-def gen_notes(rng, item, p_note, p_second, payee_tag=False, dup_payee=False):
+# far past, around the epoch, the 32-bit time_t limit, a far-future leap day, the last day boost knows
+DAY_POOL = [-25202, -25201, -1, 0, 1, 59, 24855, 24856, 157112, 376199, 2932896]
+
+
+def pick_day(rng, near):
+    r = rng.random()
+    if r < 0.5:
+        return max(-25202, min(2932896, near + rng.choice([-400, -31, -1, 0, 1, 2, 28, 366])))
+    return rng.choice(DAY_POOL)
+
+
+def fmt_day(days):
+    return '%04d/%02d/%02d' % civil(days)
+
+
+def gen_date_note(rng, near):
+    """a note line item_t::parse_tags reads a date from: `[DATE]`, `[=AUX]` or `[DATE=AUX]`, alone or
+    between words; the line must not contain `:` (parse_tags then looks for tags instead)
+    -> (text, own_date, own_aux)"""
+    form = rng.choice(['d', 'a', 'da'])
+    d = pick_day(rng, near) if 'd' in form else None
+    a = pick_day(rng, near) if 'a' in form else None
+    inner = (fmt_day(d) if d is not None else '') + ('=' + fmt_day(a) if a is not None else '')
+    pre = (word(rng) + ' ') if rng.random() < 0.3 else ''
+    post = (' ' + word(rng)) if rng.random() < 0.3 else ''
+    return (' ' if rng.random() < 0.8 else '') + pre + '[' + inner + ']' + post, d, a
+
+
+def gen_notes(rng, item, p_note, p_second, payee_tag=False, dup_payee=False, date_note=False, near=0):
     """note lines of a transaction or posting: item.notes (texts), item.metas (entries per line),
     item.inline_note (first line written on the item's own line)"""
     lines = []
@@ -197,6 +231,10 @@ def gen_notes(rng, item, p_note, p_second, payee_tag=False, dup_payee=False):
         lines.append(gen_meta_line(rng, 'payee'))
         if dup_payee:
             lines.append(gen_meta_line(rng, 'payee'))
+    item.own_date = item.own_aux = None
+    if date_note:
+        t, item.own_date, item.own_aux = gen_date_note(rng, near)
+        lines.append((t, []))
     rng.shuffle(lines)
     item.notes = [t for t, _ in lines]
     item.metas = [m for _, m in lines]
@@ -277,18 +315,21 @@ def gen_journal(rng, idx):
                 a = qword
         acct_pool.append(a)
     xs = []
-    day = rng.choice([-2500, -400, 0, 3000, 18262, 18262, 18262, 19000, 30000])   # days from 1970-01-01
+    day = rng.choice([-25202, -2500, -400, -1, 0, 3000, 18262, 18262, 18262, 19000, 24855, 30000, 157112, 376000, 2932800])   # days from 1970-01-01 (the last one: 9999/10/12)
     for xi in range(rng.choice([1, 1, 2, 3, 4])):
         x = Xact()
-        day += rng.choice([0, 1, 5, 40])
+        day += rng.choice([0, 1, 5, 16])
         x.days = day
+        # DATE=AUX in the header
+        x.aux_days = pick_day(rng, day) if rng.random() < 0.3 else None
         x.state = rng.choice([0, 0, 1, 2])
         r = rng.random()
         # a code may be empty or blank: `()` prints <code/>, `( )` takes boost's only-spaces branch (&#32;)
         x.code = None if r < 0.45 else ('' if r < 0.50 else rng.choice([' ', '  ', '   ']) if r < 0.54 else gen_field(rng, code_ok))
         x.payee = gen_field(rng, lambda t: payee_ok(t, x.code is not None, x.state))
         xact_payee_tag = rng.random() < 0.22
-        gen_notes(rng, x, 0.5, 0.25, payee_tag=xact_payee_tag, dup_payee=xact_payee_tag and rng.random() < 0.25)
+        gen_notes(rng, x, 0.5, 0.25, payee_tag=xact_payee_tag, dup_payee=xact_payee_tag and rng.random() < 0.25,
+                  date_note=rng.random() < 0.08, near=day)
         comm = rng.choice(comms)
         dec = decs[comm[0]]
         n = rng.choice([2, 2, 3])
@@ -308,7 +349,8 @@ def gen_journal(rng, idx):
             p.cost = None
             # a posting-level Payee tag: more often when the transaction has one too, so that the
             # inline / next-line / inherited combinations all occur
-            gen_notes(rng, p, 0.35, 0.3, payee_tag=rng.random() < (0.45 if xact_payee_tag else 0.15))
+            gen_notes(rng, p, 0.35, 0.3, payee_tag=rng.random() < (0.45 if xact_payee_tag else 0.15),
+                      date_note=rng.random() < 0.3, near=day)
             x.posts.append(p)
         others = [c for c in comms if c is not comm and c[0] is not None]
         if cost_shape and others:
@@ -328,6 +370,7 @@ def gen_journal(rng, idx):
             p.state, p.virtual = 0, 1
             p.comm, p.cents, p.dec, p.cost = comm, rng.choice([100, 3, -42]), dec, None
             p.notes, p.metas, p.inline_note = [], [], False
+            p.own_date = p.own_aux = None
             x.posts.append(p)
         xs.append(x)
     return xs, qword
@@ -350,9 +393,11 @@ def render(xs):
     """journal text; sets x.line / p.line (1-based)"""
     lines = []
     for x in xs:
-        y, m, d = civil(x.days)
-        x.ymd = (y, m, d)
-        head = '%04d/%02d/%02d ' % (y, m, d) + STATE_PREFIX[x.state]
+        # xact._date / _date_aux: the header's, replaced by a `[..]` of a transaction note
+        x.eff_days = x.own_date if x.own_date is not None else x.days
+        x.eff_aux = x.own_aux if x.own_aux is not None else x.aux_days
+        x.ymd = civil(x.eff_days)
+        head = fmt_day(x.days) + ('=' + fmt_day(x.aux_days) if x.aux_days is not None else '') + ' ' + STATE_PREFIX[x.state]
         if x.code is not None:
             head += '(' + x.code + ') '
         head += x.payee
@@ -597,7 +642,11 @@ def flags_of(symbol):
     return FLAGS.get(symbol, '?')
 
 
-def build_case(jid, path, fmt, xs, shown, rows):
+def ymd_opt(days):
+    return [] if days is None else [list(civil(days))]
+
+
+def build_case(jid, path, fmt, xs, shown, rows, aux=False):
     """the S-expression handed to the model.  Free-text fields come from the generator, amount
     texts from the register rows (`rows`, one per shown posting)."""
     it = iter(rows)
@@ -615,21 +664,22 @@ def build_case(jid, path, fmt, xs, shown, rows):
                 cost = [amt_sx(r['cost'], flags_of(csym), csym, r['quantity(cost)'])]
             note = '\n'.join(p.notes) if p.notes else None
             ps.append([p.line, p.virtual, p.state, hexs(p.account), amount, cost, opt(note),
-                       meta_entries(p, 'inline'), meta_entries(p, 'later')])
+                       ymd_opt(p.own_date), ymd_opt(p.own_aux), meta_entries(p, 'inline'), meta_entries(p, 'later')])
             annot = []
             if p.cost:
-                # the unit price and the transaction date annotate the commodity of a costed amount
+                # the unit price and the transaction's (primary) date annotate the commodity of a costed amount:
+                # xact_base_t::finalize runs while the journal is read, before --aux-date takes effect
                 pc = p.cost[0][0] or ''
-                annot = [amt_sx('', flags_of(pc), pc, qty_string(p.cost[1], p.cost[2])), hexs(r['date'])]
+                annot = [amt_sx('', flags_of(pc), pc, qty_string(p.cost[1], p.cost[2])), hexs(fmt_day(x.eff_days))]
             comms.append([hexs(flags_of(sym)), hexs(sym), annot])
         xnote = '\n'.join(x.notes) if x.notes else None
         y, m, d = x.ymd
-        xacts.append([x.line, y, m, d, x.state, opt(x.code), hexs(x.payee), opt(xnote), meta_entries(x, 'all'), ps])
+        xacts.append([x.line, y, m, d, ymd_opt(x.eff_aux), x.state, opt(x.code), hexs(x.payee), opt(xnote), meta_entries(x, 'all'), ps])
     visited = {p.account for _, posts in shown for p in posts}
     for x in xs:
         for p in x.posts:
             accts.append([p.account in visited, hexs(p.account)])
-    return lib.sx(['journal', jid, hexs(path), [[q, f] for q, f in fmt], xacts, accts, comms])
+    return lib.sx(['journal', jid, hexs(path), aux, [[q, f] for q, f in fmt], xacts, accts, comms])
 
 
 def gen_format(rng):
@@ -654,10 +704,10 @@ def make_journal(ctx, rng, idx, jdir):
     xs, qword = gen_journal(rng, idx)
     fname = 'j%d.dat' % idx if rng.random() < 0.7 else rng.choice(['q"%d.dat', 'b\\%d.dat', 'é<&%d.dat']) % idx
     fmt, fkind = gen_format(rng)
-    return make_record(xs, qword, fmt, fkind, 'j%d' % idx, os.path.join(jdir, fname))
+    return make_record(xs, qword, fmt, fkind, 'j%d' % idx, os.path.join(jdir, fname), rng.random() < 0.4)
 
 
-def make_record(xs, qword, fmt, fkind, jid, path):
+def make_record(xs, qword, fmt, fkind, jid, path, aux=False):
     jtext = render(xs)
     with open(path, 'wb') as f:
         f.write(jtext.encode('utf-8'))
@@ -668,14 +718,14 @@ def make_record(xs, qword, fmt, fkind, jid, path):
     else:
         shown = [(x, list(x.posts)) for x in xs]
     return dict(id=jid, journal=jtext, path=path, query=query, qword=qword, fmt=fmt, fkind=fkind, xs=xs,
-                shown=shown, outs=None)
+                shown=shown, outs=None, aux=aux)
 
 
 def shrink(rec, key):
     """drop transactions (then postings' notes) while the oracle still reports `key`; -> the
     violation on the smallest journal found"""
     def judge(xs):
-        r = run_commands(make_record(xs, rec['qword'], rec['fmt'], rec['fkind'], rec['id'], rec['path']))
+        r = run_commands(make_record(xs, rec['qword'], rec['fmt'], rec['fkind'], rec['id'], rec['path'], rec['aux']))
         tmp = lib.Result()
         rows = check_journal_fields(r, tmp)
         if rows is None:
@@ -700,16 +750,21 @@ def shrink(rec, key):
     return best
 
 
-def commands(path, fmt_string, query):
-    return (('reg', ['-f', path, 'reg', '--format', REG_FORMAT] + query),
-            ('csvd', ['-f', path, 'csv'] + query),
-            ('csv', ['-f', path, 'csv', '--csv-format', fmt_string] + query),
-            ('emacs', ['-f', path, 'emacs'] + query),
-            ('xml', ['-f', path, 'xml'] + query))
+def commands(path, fmt_string, query, aux=False):
+    """every report of one journal runs with the same query and the same --aux-date setting; `reg2`
+    is the register with the OTHER setting (the xml output carries both dates)"""
+    flag = ['--aux-date'] if aux else []
+    other = [] if aux else ['--aux-date']
+    return (('reg', ['-f', path, 'reg', '--format', REG_FORMAT] + flag + query),
+            ('reg2', ['-f', path, 'reg', '--format', '%(date)' + ROWEND + '\\n'] + other + query),
+            ('csvd', ['-f', path, 'csv'] + flag + query),
+            ('csv', ['-f', path, 'csv', '--csv-format', fmt_string] + flag + query),
+            ('emacs', ['-f', path, 'emacs'] + flag + query),
+            ('xml', ['-f', path, 'xml'] + flag + query))
 
 
 def run_commands(rec):
-    rec['outs'] = {name: lib.run_ledger(args) for name, args in commands(rec['path'], csv_format_string(rec['fmt']), rec['query'])}
+    rec['outs'] = {name: lib.run_ledger(args) for name, args in commands(rec['path'], csv_format_string(rec['fmt']), rec['query'], rec['aux'])}
     try:
         os.unlink(rec['path'])
     except OSError:
@@ -719,7 +774,7 @@ def run_commands(rec):
 
 def case_of(rec):
     return dict(journal=rec['journal'], file=os.path.basename(rec['path']), query=rec['query'],
-                csv_format=csv_format_string(rec['fmt']))
+                csv_format=csv_format_string(rec['fmt']), aux_date=rec['aux'])
 
 
 def check_journal_fields(rec, res):
@@ -736,9 +791,8 @@ def check_journal_fields(rec, res):
         for p in posts:
             xnote = '\n'.join(x.notes)
             pnote = '\n'.join(p.notes)
-            want.append(dict(payee=x.payee, code=x.code or '', account=p.account, note=pnote + xnote,
-                             date='%04d/%02d/%02d' % x.ymd))
-    got = None if rows is None else [dict(payee=r['xact.payee'], code=r['code'], account=r['account'], note=r['note'], date=r['date']) for r in rows]
+            want.append(dict(payee=x.payee, code=x.code or '', account=p.account, note=pnote + xnote))
+    got = None if rows is None else [dict(payee=r['xact.payee'], code=r['code'], account=r['account'], note=r['note']) for r in rows]
     if got != want:
         res.disagreements.append(dict(name='C18/journal-fields', case=case, impl=str(got)[:1500], model=str(want)[:1500]))
         return None
@@ -790,6 +844,11 @@ def oracle(rec, rows, res):
         res.violations.append(dict(key=key, desc=desc, case=c, observed=str(observed)[:800], required=str(required)[:800],
                                    journal_id=rec['id']))
 
+    # the register's dates under the other --aux-date setting
+    other_dates = [c for c in text_of(outs['reg2'][1]).split(ROWEND + '\n') if c != '']
+    if len(other_dates) != len(rows):
+        viol('xml:row-count-differs', 'reg and reg --aux-date list different numbers of postings', len(other_dates), len(rows))
+        other_dates = [r['date'] for r in rows]
     # ---- xml: well-formed, and the values are the register's
     xml_bytes = outs['xml'][1]
     try:
@@ -811,7 +870,11 @@ def oracle(rec, rows, res):
                     if vals:
                         ref = vals[0]
                         break
-                got.append(dict(ref=ref, date=t.findtext('date') or '', code=t.findtext('code') or '',
+                # dates: the posting's own element if present, else the transaction's; without any
+                # <aux-date> the auxiliary date is the date
+                date = p.findtext('date') or t.findtext('date') or ''
+                auxd = p.findtext('aux-date') or t.findtext('aux-date') or date
+                got.append(dict(ref=ref, date=date, aux_date=auxd, code=t.findtext('code') or '',
                                 payee=(pp.text or '') if pp is not None else (t.findtext('payee') or ''),
                                 account=p.findtext('./account/name') or '',
                                 commodity=(sym.text or '') if sym is not None else '',
@@ -823,7 +886,9 @@ def oracle(rec, rows, res):
             for p in posts:
                 r = rows[k]
                 k += 1
-                want.append(dict(ref=r['tag("ref")'], date=r['date'], code=r['code'], payee=r['payee'], account=r['account'],
+                d_main, d_other = r['date'], other_dates[k - 1]
+                want.append(dict(ref=r['tag("ref")'], date=d_other if rec['aux'] else d_main,
+                                 aux_date=d_main if rec['aux'] else d_other, code=r['code'], payee=r['payee'], account=r['account'],
                                  commodity=r['commodity(scrub(display_amount))'], quantity=r['quantity(scrub(display_amount))'],
                                  xnote='\n'.join(x.notes), pnote='\n'.join(p.notes)))
         if len(got) != len(want):
@@ -931,12 +996,15 @@ def oracle(rec, rows, res):
                                     amount=pf[2][1], state=state, extra=extra, line=pf[0][1], xline=xf[1][1], file=xf[0][1]))
             want = []
             header_payees = []
+            date_info = []      # (the posting carries a date that applies, the transaction's date)
             k = 0
             for x, posts in rec['shown']:
+                xdays = x.eff_aux if (rec['aux'] and x.eff_aux is not None) else x.eff_days
                 for p in posts:
                     r = rows[k]
                     k += 1
                     header_payees.append(r['xact.payee'])
+                    date_info.append((p.own_date is not None or (rec['aux'] and p.own_aux is not None), fmt_day(xdays)))
                     extra = ([r['cost']] if r['has_cost'] == 'true' else []) + (['\n'.join(p.notes)] if p.notes else [])
                     want.append(dict(date=r['date'], code=r['code'], payee=r['payee'], account=r['account'], amount=r['amount'],
                                      state=r['cleared ? "*" : (pending ? "!" : "")'], extra=extra, line=str(p.line), xline=str(x.line),
@@ -947,12 +1015,23 @@ def oracle(rec, rows, res):
                 viol('emacs:row-count-differs', 'the emacs output has %d postings, the register %d' % (len(got), len(want)), got, want)
             else:
                 seen = set()
-                for g, w, hp in zip(got, want, header_payees):
+                for g, w, hp, (own, xd) in zip(got, want, header_payees, date_info):
                     d = [f for f in w if g[f] != w[f]]
                     if not d:
                         continue
                     key = 'emacs:%s-differs' % d[0]
                     desc = 'a value recovered from the emacs output differs from the register'
+                    if d[0] == 'date' and own and g['date'] == xd:
+                        key = 'emacs:date-differs:posting-date-not-shown'
+                        desc = 'the emacs output carries one time value per transaction, xact.date(); the register shows the date the posting itself carries'
+                        d = d[1:] or ['date']
+                        if key not in seen:
+                            seen.add(key)
+                            viol(key, desc, g, w)
+                        if d == ['date']:
+                            continue
+                        key = 'emacs:%s-differs' % d[0]
+                        desc = 'a value recovered from the emacs output differs from the register'
                     if d == ['payee'] and g['payee'] == hp and w['payee'] != hp:
                         key = 'emacs:payee-differs:payee-tag-not-shown'
                         desc = 'the emacs output carries one payee per transaction, the header text; the register shows the Payee tag that overrides it for this posting'
@@ -986,7 +1065,7 @@ def run(ctx, n_override=None):
         if rows is None:
             continue
         live.append(rec)
-        lines.append(build_case(rec['id'], rec['path'], rec['fmt'], rec['xs'], rec['shown'], rows))
+        lines.append(build_case(rec['id'], rec['path'], rec['fmt'], rec['xs'], rec['shown'], rows, rec['aux']))
         # reader specifications against python's readers, on ledger's real output
         outs = rec['outs']
         for what, name in (('rfc', 'csvd'), ('bs', 'csvd'), ('rfc', 'csv'), ('lisp', 'emacs'), ('xmltags', 'xml')):
@@ -1037,6 +1116,21 @@ def run(ctx, n_override=None):
         res.count('query' if rec['query'] else 'no-query')
         res.count('csv-format:' + rec['fkind'])
         res.count('postings', sum(len(ps) for _, ps in rec['shown']))
+        if rec['aux']:
+            res.count('with --aux-date')
+        if any(x.aux_days is not None for x, _ in rec['shown']):
+            res.count('journal-with:header-aux-date')
+        if any(x.own_date is not None or x.own_aux is not None for x, _ in rec['shown']):
+            res.count('journal-with:transaction-note-date')
+        for form, f in (('[DATE]', lambda p: p.own_date is not None and p.own_aux is None),
+                        ('[=AUX]', lambda p: p.own_date is None and p.own_aux is not None),
+                        ('[DATE=AUX]', lambda p: p.own_date is not None and p.own_aux is not None)):
+            if any(f(p) for _, ps in rec['shown'] for p in ps):
+                res.count('journal-with:posting-' + form)
+        if any(min(x.eff_days, x.eff_aux if x.eff_aux is not None else 0) < 0 for x, _ in rec['shown']):
+            res.count('journal-with:date-before-1970')
+        if any(max(x.eff_days, x.eff_aux or 0) > 24855 for x, _ in rec['shown']):
+            res.count('journal-with:date-after-2038')
         if any(has_payee(x, 'all') for x, _ in rec['shown']):
             res.count('journal-with:transaction-payee-tag')
         if any(has_payee(p, 'inline') for _, ps in rec['shown'] for p in ps):
@@ -1051,8 +1145,6 @@ def run(ctx, n_override=None):
             res.count('empty-report')
         if any(x.code is not None and x.code.strip(' ') == '' for x, _ in rec['shown']):
             res.count('journal-with:empty-or-blank-code')
-        if any(x.days < 0 for x, _ in rec['shown']):
-            res.count('journal-with:date-before-1970')
         if any(p.cost for _, ps in rec['shown'] for p in ps):
             res.count('journal-with:cost')
         if any(p.virtual for _, ps in rec['shown'] for p in ps):
@@ -1128,7 +1220,7 @@ def replay(ctx, obj):
         f.write(case['journal'].encode('utf-8', 'surrogateescape'))
     q = case.get('query') or []
     cmd = case.get('command', 'csvd')
-    args = dict(commands(path, case.get('csv_format', ''), q))[cmd]
+    args = dict(commands(path, case.get('csv_format', ''), q, case.get('aux_date', False)))[cmd]
     st, out, err = lib.run_ledger(args)
     st2, reg, _ = lib.run_ledger(['-f', path, 'reg', '--format', '%(date)|%(code)|%(payee)|%(display_account)|%(join(note | xact.note))\\n'] + q)
     print('replay: ledger %s' % ' '.join(args[2:]))
